@@ -81,12 +81,18 @@ srv.time = types.SimpleNamespace(
 
 
 def conc(x, lo, hi):
-    """Turn a small symbolic integer into a concrete one by forking on its value (one path per value): data derived from it
-    (slices of byte strings, loop bounds) then stays concrete instead of dragging symbolic bytes through C-level code."""
-    for v in range(lo, hi + 1):
-        if x == v:
-            return v
-    raise ValueError("value outside the stated range")
+    """Turn a small symbolic integer into a concrete one by forking on its value (one path per value, found by bisection):
+    data derived from it (slices of byte strings, loop bounds) then stays concrete instead of dragging symbolic values
+    through C-level code."""
+    if x < lo or x > hi:
+        raise ValueError("value outside the stated range")
+    while lo < hi:
+        mid = (lo + hi) // 2
+        if x <= mid:
+            hi = mid
+        else:
+            lo = mid + 1
+    return lo
 
 
 def reset_logs():
